@@ -333,6 +333,47 @@ func TestVfC13(t *testing.T) {
 		}
 		return true
 	}
+	// directed: well-formed requests which are refused on an attached topic, each followed by ordinary requests
+	// through the same session (a refusal must not leave the session unable to serve the next request)
+	{
+		cd := e.dial("directed")
+		cd.hi(false)
+		if f := cd.loginToken(fuzzers[1].tok); f != nil && f.code() == 200 {
+			dsend := func(kind string, body map[string]any) {
+				id := cd.nextID()
+				body["id"] = id
+				msg := map[string]any{kind: body}
+				raw := vfJSON(msg)
+				cd.mu.Lock()
+				cd.sends = append(cd.sends, vfSend{T: e.now(), Id: id, Msg: msg, Raw: raw})
+				cd.mu.Unlock()
+				cd.sendRaw([]byte(raw))
+				sent = append(sent, c13Sent{client: cd, id: id, kind: kind, raw: raw})
+			}
+			for _, tn := range []string{"me", "fnd"} {
+				dsend("sub", map[string]any{"topic": tn})
+				dsend("leave", map[string]any{"topic": tn, "unsub": true})
+				dsend("leave", map[string]any{"topic": tn})
+				dsend("sub", map[string]any{"topic": tn})
+				dsend("get", map[string]any{"topic": tn, "what": "desc"})
+			}
+			if len(g.topics) > 0 {
+				// the owner may not unsubscribe from the own group
+				own := e.dial("directed-owner")
+				own.hi(false)
+				own.loginToken(fuzzers[0].tok)
+				cdSave := cd
+				cd = own
+				dsend("sub", map[string]any{"topic": g.topics[0]})
+				dsend("leave", map[string]any{"topic": g.topics[0], "unsub": true})
+				dsend("leave", map[string]any{"topic": g.topics[0]})
+				dsend("sub", map[string]any{"topic": g.topics[0]})
+				cd = cdSave
+			}
+			r.Hit("refused_then_served_same_session")
+			e.vfQuiesce()
+		}
+	}
 	for i := 0; i < ncmd; i++ {
 		// (re)open clients in various states
 		if len(clients) < 4 && rng.Intn(10) == 0 || len(clients) == 0 {
